@@ -63,10 +63,24 @@ func init() {
 				if r.Intn(10) == 0 {
 					level = 8 + r.Intn(33)
 				}
+				deep := k%60 == 59
+				if deep {
+					level = 64 + r.Intn(17) // deeper than any fixed-size per-level table
+				}
 				nd := 200 + level*400
 				draws := make([]int64, nd)
 				for i := range draws {
 					draws[i] = int64(r.Intn(1 << 20))
+				}
+				if deep {
+					// a thin chain through every level (the tree stays small): at level n an operator with two operands,
+					// the first a leaf, the second the chain of level n-1
+					var d []int64
+					for n := level; n >= 1; n-- {
+						d = append(d, 5, 0, 0, 5, int64(r.Intn(100)), int64(n-1))
+					}
+					d = append(d, 5, int64(r.Intn(100)))
+					copy(draws, d)
 				}
 				enVar, enCond, enTry := r.Bool(), r.Bool(), r.Bool()
 				isBool := r.Bool()
